@@ -6,7 +6,7 @@ package curves
 
 //@ iface (c SpeedCurve).Evaluate() (value int, err error)
 //@   ensures[C06.range C07] err == nil ==> 0 <= value && value <= 255
-//@   modifies memberVals, memberCount, each(*LinearSpeedCurve).Value, each(*FunctionSpeedCurve).Value, each(*PidSpeedCurve).Value, lastAvgRead, lastValue, lastInterp, segLo, segHi, each(*util.PidLoop).integral, each(*util.PidLoop).error, each(*util.PidLoop).lastTime, procWorld, started, lastReadFailed
+//@   modifies memberVals, memberCount, each(*LinearSpeedCurve).Value, each(*FunctionSpeedCurve).Value, each(*PidSpeedCurve).Value, lastAvgRead, lastValue, lastInterp, segLo, segHi, each(*util.PidLoop).integral, each(*util.PidLoop).error, each(*util.PidLoop).lastTime, lastPidOut, procWorld, started, lastReadFailed
 
 // ---- registry ---------------------------------------------------------------------------------------
 //@ ghost var curveReg gset[string]
@@ -67,7 +67,7 @@ package curves
 //@   ensures[C06.minimum] err == nil && c.Config.Function.Type == "minimum" ==> (forall j :: 0 <= j && j < memberCount ==> value <= memberVals[j]) && (exists j :: 0 <= j && j < memberCount && value == memberVals[j])
 //@   ensures[C06.maximum] err == nil && c.Config.Function.Type == "maximum" ==> (forall j :: 0 <= j && j < memberCount ==> value >= memberVals[j]) && (exists j :: 0 <= j && j < memberCount && value == memberVals[j])
 // (attempted, not counted: C06.delta "value == largest - smallest member" does not discharge within the time limit; its range clause does)
-//@   modifies memberVals, memberCount, each(*LinearSpeedCurve).Value, each(*FunctionSpeedCurve).Value, each(*PidSpeedCurve).Value, lastAvgRead, lastValue, lastInterp, segLo, segHi, each(*util.PidLoop).integral, each(*util.PidLoop).error, each(*util.PidLoop).lastTime, procWorld, started, lastReadFailed
+//@   modifies memberVals, memberCount, each(*LinearSpeedCurve).Value, each(*FunctionSpeedCurve).Value, each(*PidSpeedCurve).Value, lastAvgRead, lastValue, lastInterp, segLo, segHi, each(*util.PidLoop).integral, each(*util.PidLoop).error, each(*util.PidLoop).lastTime, lastPidOut, procWorld, started, lastReadFailed
 //@   loop 1 "for _, curveId := range c.Config.Function.Curves"
 //@     invariant -1 <= rangeindex && rangeindex < len(c.Config.Function.Curves) && len(curves) == rangeindex + 1 && (arrayOf(curves) == 0 || arrayOf(curves) >= old(W)) && (len(curves) == 0 ==> cap(curves) == 0)
 //@     invariant forall j :: 0 <= j && j < len(curves) ==> curves[j] != nil
@@ -86,3 +86,12 @@ package curves
 //@     invariant -1 <= rangeindex && rangeindex < len(values) && byteVals(values) && len(values) == len(curves) && len(curves) >= 1 && fin(max) && 0.0 <= max && max <= 255.0 && (forall k :: 0 <= k && k <= rangeindex ==> real(max) >= real(values[k])) && (real(max) == 0.0 || (exists j :: 0 <= j && j <= rangeindex && real(max) == real(values[j])))
 //@   loop 8 "for _, v := range values"
 //@     invariant -1 <= rangeindex && rangeindex < len(values) && byteVals(values) && len(values) == len(curves) && len(curves) >= 1 && 0 <= total && total <= 255 * (rangeindex + 1) && total == sumto(seqof(values), rangeindex + 1)
+
+//@ func (*PidSpeedCurve).Evaluate
+//@   props C06
+//@   requires c.Config.PID != nil && c.pidLoop != nil && c.Config.PID.Sensor in sensorReg
+//@   ensures[C06.range.finite] err == nil && !isnan(lastPidOut) ==> 0 <= value && value <= 255
+//@   ensures[C06.range]   err == nil ==> 0 <= value && value <= 255
+//@   ensures[C06.pid]     err == nil && !isnan(lastPidOut) ==> value == int(util.clamp01(lastPidOut) * 255.0)
+//@   ensures[C06.current] err == nil ==> c.Value == value
+//@   modifies c.Value, c.pidLoop.integral, c.pidLoop.error, c.pidLoop.lastTime, lastValue, lastPidOut, procWorld, started, lastReadFailed
